@@ -22,7 +22,7 @@ use std::collections::HashMap;
 
 pub const META: Meta = Meta {
     level: "exploration",
-    rule: "size part: max_transmit_size in {100, 2048} (thorough: + 130, 20000) x every sequence of 1-3 publish RPCs with encoded length in {max-3..max+3} x every split of the stream into <= 3 chunks at cut positions around every prefix / frame boundary / frame middle (1 chunk = fully coalesced); limits part: max_publish_messages = 3, max_control_message_size = 40: sequences of 1-2 RPCs from {2, 3, 4 publishes; control+subscription size 36, 39, 40, 41, 45} x the same splits. Non-trivial = distinct (config, frames, cuts) cases with >= 2 frames or >= 2 chunks.",
+    rule: "size part: max_transmit_size in {100, 2048} (thorough: + 130, 9000) x every sequence of 1-3 publish RPCs with encoded length in {max-3..max+3} x every split of the stream into <= 3 chunks at cut positions around every prefix / frame boundary / frame middle (1 chunk = fully coalesced); limits part: max_publish_messages = 3, max_control_message_size = 40: sequences of 1-2 RPCs from {2, 3, 4 publishes; control+subscription size 36, 39, 40, 41, 45} x the same splits. Non-trivial = distinct (config, frames, cuts) cases with >= 2 frames or >= 2 chunks.",
     explanation: "Complete enumeration (E3); every case is decoded by the real GossipsubCodec in FramedRead over a scripted reader and compared with the statement's verdict per frame (decoded with right content / error at the first over-size frame).",
     assumptions: &["payload interiors represented by length only", "wire bytes built by an independent protobuf writer and cross-checked against the real encoder", "prost / unsigned-varint trusted"],
 };
@@ -56,17 +56,19 @@ fn build(f: &Frame) -> Option<Built> {
         Frame::Pub { len } => {
             // pad with the data field; where a varint boundary leaves a gap, lengthen the topic
             for tl in 1..=3usize {
-                let mk = |d: usize| W::new().msg(2, &W::new().bytes(2, &vec![0xAB; d]).bytes(4, &vec![b't'; tl])).finish();
+                let vl = |n: usize| pb::varint_vec(n as u64).len();
+                let total = |d: usize| {
+                    let m = 1 + vl(d) + d + 1 + 1 + tl;
+                    1 + vl(m) + m
+                };
                 let mut d = len.saturating_sub(14);
-                loop {
-                    let b = mk(d);
-                    if b.len() == *len {
-                        return Some(Built { body: b, data_lens: vec![d], subs: 0, grafts: 0, ctrl_hi: 0 });
-                    }
-                    if b.len() > *len {
-                        break;
-                    }
+                while total(d) < *len {
                     d += 1;
+                }
+                if total(d) == *len {
+                    let b = W::new().msg(2, &W::new().bytes(2, &vec![0xAB; d]).bytes(4, &vec![b't'; tl])).finish();
+                    debug_assert_eq!(b.len(), *len);
+                    return Some(Built { body: b, data_lens: vec![d], subs: 0, grafts: 0, ctrl_hi: 0 });
                 }
             }
             None
@@ -163,16 +165,20 @@ struct CaseInfo {
 /// run one case; Err = violation message ("signature :: details")
 fn run_case(max: usize, frames: &[Frame], cuts: &[usize], info: &mut CaseInfo) -> Result<(), String> {
     let built: Vec<Built> = frames.iter().map(|f| build(f).ok_or_else(|| format!("harness :: cannot build {f:?}"))).collect::<Result<_, _>>()?;
+    run_built(max, frames, &built, cuts, info)
+}
+
+fn run_built(max: usize, frames: &[Frame], built: &[Built], cuts: &[usize], info: &mut CaseInfo) -> Result<(), String> {
     let mut stream = Vec::new();
     let mut starts = Vec::new();
-    for b in &built {
+    for b in built {
         starts.push(stream.len());
         stream.extend_from_slice(&pb::frame(&b.body));
     }
     let chunks: Vec<Vec<u8>> = mc::enumerate::chunks_at(&stream, cuts).into_iter().map(|c| c.to_vec()).collect();
     let nchunks = chunks.len();
     let (got, err) = mc::catch(|| decode_stream(max, chunks)).map_err(|p| format!("decoder-panic :: {p}"))?;
-    for (i, (f, b)) in frames.iter().zip(&built).enumerate() {
+    for (i, (f, b)) in frames.iter().zip(built).enumerate() {
         let v = verdict(max, f, b);
         let l = b.body.len();
         let pre = pb::varint_vec(l as u64).len();
@@ -284,7 +290,23 @@ pub fn run(ctx: &Ctx) -> Outcome {
         }
         return out;
     }
-    let mut out = mc::workers(ctx, 16, |ctx| {
+    // simplest cases first (single frames and fully coalesced pairs, max 100) so that the case
+    // kept per violation signature is a minimal one; they are enumerated again (and counted)
+    // by the workers below
+    let mut pre = Outcome::default();
+    if ctx.worker.is_none() {
+        let lens: Vec<usize> = (97..=103).collect();
+        mc::enumerate::sequences_upto(lens.len(), 2, |ix| {
+            if ix.is_empty() {
+                return;
+            }
+            let frames: Vec<Frame> = ix.iter().map(|&i| Frame::Pub { len: lens[i] }).collect();
+            if let Err(m) = run_case(100, &frames, &[], &mut CaseInfo::default()) {
+                pre.violation(mc::bfs::signature_of(&m), m, json!({"max": 100, "frames": frames, "cuts": []}));
+            }
+        });
+    }
+    let out = mc::workers(ctx, 16, |ctx| {
         let mut out = Outcome::default();
         let mut info = CaseInfo::default();
         let mut idx: u64 = 0;
@@ -309,7 +331,7 @@ pub fn run(ctx: &Ctx) -> Outcome {
                 if out.evaluations % 4099 == 1 {
                     out.sample(case.clone());
                 }
-                if let Err(m) = run_case(max, &frames, &cuts, info) {
+                if let Err(m) = run_built(max, &frames, &built, &cuts, info) {
                     if m.starts_with("harness ::") {
                         out.machinery(m);
                     } else {
@@ -319,7 +341,7 @@ pub fn run(ctx: &Ctx) -> Outcome {
             }
         };
         // ---- size part
-        let maxes: Vec<usize> = ctx.tier.pick(vec![100, 2048], vec![100, 130, 2048, 20000]);
+        let maxes: Vec<usize> = ctx.tier.pick(vec![100, 2048], vec![100, 130, 2048, 9000]);
         for &max in &maxes {
             let lens: Vec<usize> = (max - 3..=max + 3).collect();
             mc::enumerate::sequences_upto(lens.len(), 3, |ix| {
@@ -345,6 +367,8 @@ pub fn run(ctx: &Ctx) -> Outcome {
         out.count("frames_over_publish_or_control_limit_accepted", info.open_accepted);
         out
     });
+    pre.merge(out);
+    let mut out = pre;
     crosscheck_encoder(&mut out);
     for k in ["frames_rejected_over_max_transmit_size", "fully_coalesced_multi_frame_cases", "frames_over_publish_or_control_limit_rejected"] {
         if out.get(k) == 0 {
